@@ -1,7 +1,167 @@
+import ElvisVerif.Model.Router
 import Driver.Common
-/-! Line-protocol handlers for C16 (sub-commands `c16` / `c16-*`). -/
-namespace Driver.C16
+/-! Line-protocol handlers for C16 (sub-command `c16`).
 
-def dispatch (_sub : String) (_i _o : IO.FS.Stream) : Option (IO Unit) := none
+`topo` / `host` / `router` lines build the topology; `send` hands one datagram to a host's stack
+and runs the concrete model (`cstep` under the canonical schedule `nextChoice`) to quiescence;
+`bsend`* + `flush` hand several datagrams over before running.  The answer lists, canonically
+sorted, every frame handed to a network (`W` IPv4, `A` ARP — omitted for bursts), every tap
+delivery of an IPv4 frame (`D`) and every application delivery (`P`). -/
+namespace Driver.C16
+open Elvis.Router
+
+structure St where
+  topo : Topo := { nodes := [], mtus := [] }
+  cs : CState := CState.init { nodes := [], mtus := [] }
+  dead : Bool := false
+
+def parseAddr (s : String) : Option Nat :=
+  match s.splitOn "." with
+  | [a, b, c, d] => do
+    let a ← a.toNat?; let b ← b.toNat?; let c ← c.toNat?; let d ← d.toNat?
+    pure (((a * 256 + b) * 256 + c) * 256 + d)
+  | _ => none
+
+def kvs (ws : List String) : List (String × String) :=
+  ws.filterMap fun w => match w.splitOn "=" with
+    | [k, v] => some (k, v)
+    | _ => none
+
+def get (m : List (String × String)) (k : String) : Option String := (m.find? (·.1 == k)).map (·.2)
+def getNat (m : List (String × String)) (k : String) : Option Nat := (get m k).bind (·.toNat?)
+def getAddr (m : List (String × String)) (k : String) : Option Nat := (get m k).bind parseAddr
+
+def routerBinds : List Bind := Elvis.Gen.routerWildcardListens.map fun pn => { addr := 0, pn := pn, up := .router }
+
+def parseSlot (s : String) : Option ((NetId × Mac) × Addr) :=
+  match s.splitOn ":" with
+  | [n, m, a] => do pure (((← n.toNat?), (← m.toNat?)), (← parseAddr a))
+  | _ => none
+
+def parseRoute (s : String) : Option RouteEntry :=
+  match s.splitOn "/" with
+  | [a, l, g, sl] => do
+    let gw ← if g == "-" then some none else (parseAddr g).map some
+    pure { net := (← parseAddr a), len := (← l.toNat?), gw := gw, slot := (← sl.toNat?) }
+  | _ => none
+
+def parseSend (m : List (String × String)) : Option (Nat × Pkt) := do
+  let tok ← getNat m "tok"
+  let h ← getNat m "h"
+  let src ← getAddr m "src"
+  let dst ← getAddr m "dst"
+  let pay ← (get m "pay").bind Driver.parseHex
+  if get m "kind" == some "udp" then
+    -- Ipv4Session::send: Ipv4HeaderBuilder::new(local, remote, UDP, length)
+    pure (h, { tok := tok, payload := pay,
+               hdr := { tos := 0, totalLength := 20 + pay.length, ident := 0, fragOffset := 0, flags := 0,
+                        ttl := Elvis.Gen.ipv4DefaultTtl, proto := 17, src := src, dst := dst } })
+  else
+    pure (h, { tok := tok, payload := pay,
+               hdr := { tos := (← getNat m "tos"), totalLength := 20 + pay.length, ident := (← getNat m "id"),
+                        fragOffset := (← getNat m "off"), flags := (← getNat m "flags"), ttl := (← getNat m "ttl"),
+                        proto := (← getNat m "proto"), src := src, dst := dst } })
+
+def showIp (net smac dmac : Nat) (p : Pkt) : String :=
+  s!"W:n{net}:{smac}>{dmac}:t{p.tok}:ttl{p.hdr.ttl}:{p.hdr.tos}.{p.hdr.totalLength}.{p.hdr.ident}.{p.hdr.flags}.{p.hdr.fragOffset}.{p.hdr.proto}.{p.hdr.src}.{p.hdr.dst}:{Driver.toHex p.payload}"
+
+def showArp (f : ArpFrame) : String :=
+  if f.isReq then s!"A:n{f.net}:{f.smac}>*:q:{f.sip}:{f.sha}:{f.tip}"
+  else
+    let d := match f.dmac with
+      | some m => toString m
+      | none => "*"
+    s!"A:n{f.net}:{f.smac}>{d}:p:{f.sip}:{f.sha}:{f.tip}:{f.tha}"
+
+def showEv : Ev → Option String
+  | .wire f => some (showIp f.net f.smac f.dmac f.pkt)
+  | .app n p port data => some s!"P:{n}:{port}:t{p.tok}:{Driver.toHex data}"
+  | .hop _ _ => none
+
+/-- the canonical schedule, recording the tap deliveries of IPv4 frames -/
+def runTrace (topo : Topo) : Nat → CState → List String → Except String (CState × List String)
+  | 0, _, _ => .error "model-not-quiescent-within-step-budget"
+  | fuel + 1, s, acc =>
+    match nextChoice s with
+    | none => .ok (s, acc)
+    | some c =>
+      let acc := match c with
+        | .deliver i =>
+          match s.flight[i]? with
+          | some f =>
+            match tapOwner topo f.net f.dmac with
+            | some (n, _, _) => s!"D:{n}:t{f.pkt.tok}:ttl{f.pkt.hdr.ttl}" :: acc
+            | none => acc
+          | none => acc
+        | _ => acc
+      match cstep topo s c with
+      | .error e => .error e
+      | .ok s' => runTrace topo fuel s' acc
+
+def sortStrings (l : List String) : List String := (l.toArray.qsort (fun a b => a < b)).toList
+
+def settle (st : St) (withArp : Bool) (before : CState) : St × String :=
+  match runTrace st.topo 40000 st.cs [] with
+  | .error e => ({ st with dead := true }, e)
+  | .ok (s, taps) =>
+    let evs := (s.log.drop before.log.length).filterMap showEv
+    let arps := if withArp then (s.arpLog.drop before.arpLog.length).map showArp else []
+    let items := sortStrings (evs ++ arps ++ taps)
+    ({ st with cs := s }, if items.isEmpty then "r -" else "r " ++ " ".intercalate items)
+
+def step (st : St) (ws : List String) : St × String :=
+  match ws with
+  | ["case", id] => ({}, s!"case {id}")
+  | "topo" :: rest =>
+    let m := kvs rest
+    match (get m "mtus").map (fun s => (s.splitOn ",").filterMap (·.toNat?)) with
+    | some mtus => ({ st with topo := { nodes := [], mtus := mtus } }, "topo")
+    | none => (st, "bad-op")
+  | "host" :: _ :: rest =>
+    let m := kvs rest
+    match getNat m "net", getNat m "mac", getAddr m "ip", getNat m "mask", getAddr m "gw", getNat m "port" with
+    | some net, some mac, some ip, some mask, some gw, some port =>
+      let nd : Node := { slots := [(net, mac)], binds := [{ addr := ip, pn := 17, up := .udp }],
+                         udpPorts := [(ip, port)], subnet := some (ip, mask, gw), localIps := [ip],
+                         table := [], arpIps := [ip] }
+      let topo := { st.topo with nodes := st.topo.nodes ++ [nd] }
+      ({ st with topo := topo, cs := CState.init topo }, "host")
+    | _, _, _, _, _, _ => (st, "bad-op")
+  | "router" :: _ :: rest =>
+    let m := kvs rest
+    let slots := (get m "slots").bind fun s => (s.splitOn ",").mapM parseSlot
+    let routes := (get m "routes").bind fun s => if s == "-" then some [] else (s.splitOn ";").mapM parseRoute
+    match slots, routes with
+    | some sl, some rt =>
+      let ips := sl.map (·.2)
+      let nd : Node := { slots := sl.map (·.1), binds := routerBinds, udpPorts := [], subnet := none,
+                         localIps := ips, table := rt, arpIps := ips ++ [0] }
+      let topo := { st.topo with nodes := st.topo.nodes ++ [nd] }
+      ({ st with topo := topo, cs := CState.init topo }, "router")
+    | _, _ => (st, "bad-op")
+  | "send" :: rest =>
+    if st.dead then (st, "dead") else
+    match parseSend (kvs rest) with
+    | none => (st, "bad-op")
+    | some (h, pkt) =>
+      match cstep st.topo st.cs (.send h pkt) with
+      | .error e => ({ st with dead := true }, e)
+      | .ok s => settle { st with cs := s } true st.cs
+  | "bsend" :: rest =>
+    if st.dead then (st, "q") else
+    match parseSend (kvs rest) with
+    | none => (st, "bad-op")
+    | some (h, pkt) =>
+      match cstep st.topo st.cs (.send h pkt) with
+      | .error e => ({ st with dead := true }, e)
+      | .ok s => ({ st with cs := s }, "q")
+  | ["flush"] =>
+    if st.dead then (st, "dead") else
+    -- the datagrams of the burst wait as tasks; everything logged from here on belongs to it
+    settle st false st.cs
+  | _ => (st, "bad-op")
+
+def dispatch (sub : String) (i o : IO.FS.Stream) : Option (IO Unit) :=
+  if sub == "c16" then some (Driver.loop i o step {}) else none
 
 end Driver.C16
